@@ -1238,8 +1238,14 @@ impl C08 {
         };
         let main_in = JudgeIn {
             script: &script, output: &output, pdus: &pdus, used, version: cfg.version, notified: &notified,
-            never_ready_seen, partial_header_notifies, last_notify_mark, io_fault,
+            never_ready_seen, partial_header_notifies, last_notify_mark,
+            // the relaxation applies only if the armed error was really
+            // handed to the server (it has been taken from the pipe)
+            io_fault: io_fault && s2c.lock().unwrap().write_err.is_none() && c2s.lock().unwrap().read_err.is_none(),
         };
+        if io_fault && !main_in.io_fault {
+            counters.bump("probe_armed_io_error_never_reached_the_server");
+        }
         let (m, idx, notifies_seen) = decide(&main_in, &answers)?;
         // The second connection: its own handshake answered, every later
         // notification passed on, nothing else - whatever the main one did.
@@ -1374,6 +1380,7 @@ impl Scenario for C08 {
 
     fn assumptions(&self) -> Vec<&'static str> {
         vec![
+            "a Reset Query (version >= 1) whose header field 'zero' is not zero is a well-formed query and gets its data response: RFC 8210 section 5 says such fields MUST be ignored on receipt (for version 0, RFC 6810 only says MAY, so version 0 queries keep the field at zero)",
             "while the source reports ready() == false a well-formed query gets exactly one Error PDU (the statement does not list this case; this is what the code documents) - toggled in the dynamic class",
             "the second connection's handshake is completed before the main client sends anything, so that source calls can be attributed to a connection without relying on how the server clones its source",
             "notify() on a live, framed connection must be followed by a Serial Notify by the time the system is quiescent (bursts may be coalesced: one PDU written after the last call is enough; a call that the client's EOF overtakes before the server runs again is forgiven; a connection parked inside an incomplete query is exempt)",
